@@ -19,6 +19,7 @@
 #include <map>
 #include <random>
 #include <string>
+#include <type_traits>
 #include <vector>
 using namespace IMATH_NAMESPACE;
 typedef long double L;
@@ -34,11 +35,16 @@ template <class T> struct Nm { static const char* n; };
 template <> const char* Nm<float>::n = "float";
 template <> const char* Nm<double>::n = "double";
 
+// magnitude classes (huge / tiny lengths of the direction arguments) are accounted separately, per function: RESIDUE-CLASS lines
+static std::map<std::string, std::pair<long, long>> classAcc;   // "<function>:<class>:<type>" -> (evaluations, failures)
+static long failuresMagnitude = 0;
+static bool isMagnitudeClass (const std::string& cls) { return cls == "huge-magnitudes" || cls == "tiny-magnitudes"; }
 static void fail (const std::string& what, const std::string& cls, const char* ty, double ratio, double c, const std::string& in)
 {
     ++failures;
-    static std::map<std::string, int> printed;   // at most 3 lines per (check, element type): one noisy check must not hide another
-    if (++printed[what + ":" + ty] <= 3)
+    if (isMagnitudeClass (cls)) ++failuresMagnitude;
+    static std::map<std::string, int> printed;   // at most 3 lines per (check, input class, element type): one noisy check must not hide another
+    if (++printed[what + ":" + cls + ":" + ty] <= (isMagnitudeClass (cls) ? 2 : 3))
         printf ("RESIDUE-FAIL %s:%s:%s err/eps=%.4g > %.4g in=%s\n", what.c_str (), cls.c_str (), ty, ratio, c, in.c_str ());
 }
 // record error `err` measured in units of eps against the constant c
@@ -48,6 +54,14 @@ template <class T> static void rec (const std::string& what, const std::string& 
     double r = (double) (err / (L) std::numeric_limits<T>::epsilon ());
     if (!(err == err)) r = INFINITY; // NaN
     std::string k = what + ":" + Nm<T>::n;
+    if (isMagnitudeClass (cls))
+    {
+        // kept out of the per-check maxima of the ordinary classes (they calibrate the bounds there)
+        k = what + "[" + cls + "]:" + Nm<T>::n;
+        auto& acc = classAcc[what.substr (0, what.find ('.')) + ":" + cls + ":" + Nm<T>::n];
+        ++acc.first;
+        if (!(r <= c)) ++acc.second;
+    }
     if (r > worst[k]) worst[k] = r;
     if (!(r <= c)) fail (what, cls, Nm<T>::n, r, c, in);
 }
@@ -244,6 +258,67 @@ template <class T> static void inplace (int k)
     { Matrix22<T> a (m2); a.scale (v2); Matrix22<T> s; s.setScale (v2); cmpProd<T> ("M22.scale=setScale*M", mode, a, toL (s, 2), M2L, 2, 4, in); }
 }
 
+// ---------------------------------------------------------------- D: cross-type overloads (audit W9)
+// every builder is `template <class S>`: the matrix has element type T, the ARGUMENT element type S.  Extraction and blocks A-C use S = T;
+// here S is the other floating type.  Arguments are floats (exactly representable in both types), so the linear builders must agree
+// EXACTLY with the S = T call, the in-place forms with set*·M to 4 eps(T)·sum|terms|, and the trigonometric ones with the documented
+// formula to c·eps of the COARSER of the two types (sin/cos and the axis normalisation are computed at S).
+template <class T, class S> static void crossType (int k)
+{
+    typedef typename std::conditional<(sizeof (S) < sizeof (T)), S, T>::type Coarse;
+    int mode = k % 3;
+    ++hits["cross-type:" + std::string (Nm<T>::n) + "-matrix/" + Nm<S>::n + "-argument"];
+    auto fv = [&] () { return (float) rv<float> (mode); };
+    float a3[3] = {fv (), fv (), fv ()}, a2[2] = {fv (), fv ()};
+    Vec3<S> vS ((S) a3[0], (S) a3[1], (S) a3[2]); Vec3<T> vT ((T) a3[0], (T) a3[1], (T) a3[2]);
+    Vec2<S> wS ((S) a2[0], (S) a2[1]);            Vec2<T> wT ((T) a2[0], (T) a2[1]);
+    Matrix44<T> m; for (int i = 0; i < 4; ++i) for (int j = 0; j < 4; ++j) m[i][j] = (T) fv ();
+    Matrix33<T> m3; for (int i = 0; i < 3; ++i) for (int j = 0; j < 3; ++j) m3[i][j] = (T) fv ();
+    Matrix22<T> m2; for (int i = 0; i < 2; ++i) for (int j = 0; j < 2; ++j) m2[i][j] = (T) fv ();
+    std::string in = "m=" + sm (m) + " v=" + sv (vT);
+    const char* cls = mode == 0 ? "integer-lattice(exact)" : mode == 1 ? "well-scaled" : "graded";
+    auto same44 = [&] (const char* what, const Matrix44<T>& x, const Matrix44<T>& y) { L e = 0; for (int i = 0; i < 4; ++i) for (int j = 0; j < 4; ++j) e = std::max (e, fabsl ((L) x[i][j] - (L) y[i][j])); rec<T> (what, cls, e, 0, in); };
+    auto same33 = [&] (const char* what, const Matrix33<T>& x, const Matrix33<T>& y) { L e = 0; for (int i = 0; i < 3; ++i) for (int j = 0; j < 3; ++j) e = std::max (e, fabsl ((L) x[i][j] - (L) y[i][j])); rec<T> (what, cls, e, 0, in); };
+    auto same22 = [&] (const char* what, const Matrix22<T>& x, const Matrix22<T>& y) { L e = 0; for (int i = 0; i < 2; ++i) for (int j = 0; j < 2; ++j) e = std::max (e, fabsl ((L) x[i][j] - (L) y[i][j])); rec<T> (what, cls, e, 0, in); };
+    // linear set* builders: exact agreement with the S = T overload
+    { Matrix44<T> x (m), y (m); x.setScale (vS); y.setScale (vT); same44 ("S!=T:M44.setScale", x, y); }
+    { Matrix44<T> x (m), y (m); x.setTranslation (vS); y.setTranslation (vT); same44 ("S!=T:M44.setTranslation", x, y); }
+    { Matrix44<T> x (m), y (m); x.setShear (vS); y.setShear (vT); same44 ("S!=T:M44.setShear(V3)", x, y); }
+    { Matrix33<T> x (m3), y (m3); x.setScale (wS); y.setScale (wT); same33 ("S!=T:M33.setScale", x, y); }
+    { Matrix33<T> x (m3), y (m3); x.setTranslation (wS); y.setTranslation (wT); same33 ("S!=T:M33.setTranslation", x, y); }
+    { Matrix33<T> x (m3), y (m3); x.setShear (wS); y.setShear (wT); same33 ("S!=T:M33.setShear(V2)", x, y); }
+    { Matrix33<T> x (m3), y (m3); x.setShear ((S) a2[0]); y.setShear ((T) a2[0]); same33 ("S!=T:M33.setShear(S)", x, y); }
+    { Matrix22<T> x (m2), y (m2); x.setScale (wS); y.setScale (wT); same22 ("S!=T:M22.setScale", x, y); }
+    // in-place forms with an S-typed argument = set*·M
+    LM ML = toL (m, 4), M3L = toL (m3, 3), M2L = toL (m2, 2);
+    { Matrix44<T> x (m); x.translate (vS); Matrix44<T> s; s.setTranslation (vT); cmpProd<T> ("S!=T:M44.translate=setTranslation*M", mode, x, toL (s, 4), ML, 4, 4, in); }
+    { Matrix44<T> x (m); x.scale (vS); Matrix44<T> s; s.setScale (vT); cmpProd<T> ("S!=T:M44.scale=setScale*M", mode, x, toL (s, 4), ML, 4, 4, in); }
+    { Matrix44<T> x (m); x.shear (vS); Matrix44<T> s; s.setShear (vT); cmpProd<T> ("S!=T:M44.shear(V3)=setShear*M", mode, x, toL (s, 4), ML, 4, 4, in); }
+    { Matrix33<T> x (m3); x.translate (wS); Matrix33<T> s; s.setTranslation (wT); cmpProd<T> ("S!=T:M33.translate=setTranslation*M", mode, x, toL (s, 3), M3L, 3, 4, in); }
+    { Matrix33<T> x (m3); x.scale (wS); Matrix33<T> s; s.setScale (wT); cmpProd<T> ("S!=T:M33.scale=setScale*M", mode, x, toL (s, 3), M3L, 3, 4, in); }
+    { Matrix33<T> x (m3); x.shear (wS); Matrix33<T> s; s.setShear (wT); cmpProd<T> ("S!=T:M33.shear(V2)=setShear*M", mode, x, toL (s, 3), M3L, 3, 4, in); }
+    { Matrix22<T> x (m2); x.scale (wS); Matrix22<T> s; s.setScale (wT); cmpProd<T> ("S!=T:M22.scale=setScale*M", mode, x, toL (s, 2), M2L, 2, 4, in); }
+    // trigonometric builders: documented formula to c·eps of the coarser type
+    int acl = k % 4;
+    float ang = (float) angle<float> (acl), e3[3] = {(float) angle<float> (acl), (float) angle<float> ((acl + 1) % 4), (float) angle<float> (acl)};
+    {
+        Vec3<S> ax = vS; if (ax.x == 0 && ax.y == 0 && ax.z == 0) ax.x = 1;
+        Matrix44<T> x (m); x.setAxisAngle (ax, (S) ang);
+        cmpEntries<Coarse> ("S!=T:M44.setAxisAngle.entries", ANG[acl], toL (x, 4), axisAngleL (ax.x, ax.y, ax.z, (L) ang), 4, 12, in + " angle=" + std::to_string (ang));
+    }
+    {
+        Vec3<S> r ((S) e3[0], (S) e3[1], (S) e3[2]);
+        Matrix44<T> x (m); x.setEulerAngles (r);
+        cmpEntries<Coarse> ("S!=T:M44.setEulerAngles.entries", ANG[acl], toL (x, 4), eulerL (e3[0], e3[1], e3[2]), 4, 6, in);
+        Matrix44<T> y (m); y.rotate (r);
+        cmpProd<Coarse> ("S!=T:M44.rotate=exactEuler*M", mode == 0 ? 1 : mode, y, eulerL (e3[0], e3[1], e3[2]), ML, 4, 16, in, 1);
+    }
+    { Matrix33<T> x (m3); x.setRotation ((S) ang); cmpEntries<Coarse> ("S!=T:M33.setRotation.entries", ANG[acl], toL (x, 3), rotZL ((L) ang), 3, 2, in);
+      Matrix33<T> y (m3); y.rotate ((S) ang); cmpProd<Coarse> ("S!=T:M33.rotate=M*exactRotation", mode == 0 ? 1 : mode, y, M3L, rotZL ((L) ang), 3, 8, in, 2); }
+    { Matrix22<T> x (m2); x.setRotation ((S) ang); cmpEntries<Coarse> ("S!=T:M22.setRotation.entries", ANG[acl], toL (x, 2), rotZL ((L) ang), 2, 2, in);
+      Matrix22<T> y (m2); y.rotate ((S) ang); cmpProd<Coarse> ("S!=T:M22.rotate=M*exactRotation", mode == 0 ? 1 : mode, y, M2L, rotZL ((L) ang), 2, 8, in, 2); }
+}
+
 // ---------------------------------------------------------------- C: frame builders
 struct V { L x, y, z; };
 static V  vl (L x, L y, L z) { return V{x, y, z}; }
@@ -258,7 +333,19 @@ static V  vecRow (V p, const LM& m) { return V{p.x * m.a[0][0] + p.y * m.a[1][0]
 
 // direction pair classes
 static const char* PAIR[] = {"generic", "graded-magnitudes", "nearly-parallel", "exactly-parallel", "exactly-opposite", "axis-aligned-parallel",
-                             "zero-first", "zero-second", "both-zero", "perpendicular-lattice"};
+                             "zero-first", "zero-second", "both-zero", "perpendicular-lattice", "huge-magnitudes", "tiny-magnitudes",
+                             "nearly-opposite"};
+static const int NPAIR = 13;
+// magnitude classes (audit W4): generic, well-separated directions whose LENGTHS are far from 1 — the property's "direction arguments neither
+// zero nor nearly parallel" carries no magnitude restriction.  huge: |v| in 1e10..1e37 (float) / 1e100..1e300 (double); tiny: reciprocals
+// (down to the edge of the normal range).  |v|^2 overflows / underflows in the upper half of these ranges, |v|^3 (the unnormalised double
+// cross product alignZAxisWithTargetDir used before /repo 8e640b7: NaN / zero rows from ~7e12 float, ~5.6e102 double) almost everywhere.
+template <class T> static T magnitude (bool huge)
+{
+    double e = std::is_same<T, float>::value ? U (10, 37) : U (100, 300);
+    return (T) std::pow (10.0, huge ? e : -e);
+}
+template <class T> static bool isZero (const Vec3<T>& v) { return v.x == 0 && v.y == 0 && v.z == 0; }
 template <class T> static void dirPair (int cls, Vec3<T>& a, Vec3<T>& b, L& sinAngle)
 {
     auto rnd = [] () { return Vec3<T> ((T) U (-1, 1), (T) U (-1, 1), (T) U (-1, 1)); };
@@ -268,7 +355,13 @@ template <class T> static void dirPair (int cls, Vec3<T>& a, Vec3<T>& b, L& sinA
     switch (cls)
     {
         case 0: break;
-        case 1: a *= (T) std::pow (2.0, I (-20, 20)); b *= (T) std::pow (2.0, I (-20, 20)); break;
+        case 1:
+        {
+            // lengths 2^-40..2^40 (float) / 2^-300..2^300 (double): |a|^2 |b| (the largest intermediate of any builder) stays a normal number
+            int g = std::is_same<T, float>::value ? 40 : 300;
+            a *= (T) std::ldexp (1.0, I (-g, g)); b *= (T) std::ldexp (1.0, I (-g, g));
+            break;
+        }
         case 2: b = a * (T) U (0.5, 2) + rnd () * (T) (std::is_same<T, float>::value ? 2e-3 : 1e-6); break;
         case 3: a = Vec3<T> ((T) I (-3, 3), (T) I (-3, 3), (T) I (1, 3)); b = a * (T) (1 << I (0, 3)); break;
         case 4: a = Vec3<T> ((T) I (-3, 3), (T) I (-3, 3), (T) I (1, 3)); b = a * (T) (-(1 << I (0, 3))); break;
@@ -276,7 +369,27 @@ template <class T> static void dirPair (int cls, Vec3<T>& a, Vec3<T>& b, L& sinA
         case 6: a = Vec3<T> (0, 0, 0); break;
         case 7: b = Vec3<T> (0, 0, 0); break;
         case 8: a = Vec3<T> (0, 0, 0); b = Vec3<T> (0, 0, 0); break;
-        default: { int ax = I (0, 2); a = Vec3<T> (0, 0, 0); b = Vec3<T> (0, 0, 0); a[ax] = (T) I (1, 4); b[(ax + 1) % 3] = (T) -I (1, 4); }
+        case 9: { int ax = I (0, 2); a = Vec3<T> (0, 0, 0); b = Vec3<T> (0, 0, 0); a[ax] = (T) I (1, 4); b[(ax + 1) % 3] = (T) -I (1, 4); break; }
+        case 10: case 11:
+        {
+            // well-separated directions (angle between 30 and 150 degrees), then scaled
+            for (int tries = 0; tries < 100; ++tries)
+            {
+                V c0 = crossl (vl (a), vl (b));
+                L d0 = lenl (vl (a)) * lenl (vl (b));
+                if (d0 > 0 && lenl (c0) / d0 > 0.5) break;
+                a = rnd (); b = rnd ();
+            }
+            a *= magnitude<T> (cls == 10); b *= magnitude<T> (cls == 10);
+            break;
+        }
+        default:
+        {
+            // nearly opposite: b = -k a + small perpendicular-ish perturbation; angles pi - delta, delta from 1e-1 down to a few eps
+            // (the (8 eps)^2 threshold branch of Quat::setRotation with f0 + t0 != 0 is reached at the small end)
+            double de = std::is_same<T, float>::value ? U (-6.5, -1) : U (-15, -1);
+            b = a * (T) -U (0.5, 2) + rnd () * (T) std::pow (10.0, de);
+        }
     }
     V c = crossl (vl (a), vl (b));
     L d = lenl (vl (a)) * lenl (vl (b));
@@ -294,8 +407,9 @@ template <class T> static void checkFrame (const std::string& what, const std::s
 }
 template <class T> static void frames (int k)
 {
-    int cls = k % 10;
+    int cls = k % NPAIR;
     ++hits[std::string ("directions:") + PAIR[cls]];
+    const bool mag = cls == 10 || cls == 11;
     Vec3<T> a, b;
     L sinA;
     dirPair<T> (cls, a, b, sinA);
@@ -308,7 +422,7 @@ template <class T> static void frames (int k)
         Matrix44<T> m;
         alignZAxisWithTargetDir (m, a, b);
         checkFrame<T> ("alignZAxisWithTargetDir", PAIR[cls], m, cond, 24, in);
-        V t = (a.length2 () == 0) ? vl (0, 0, 1) : nrml (vl (a));
+        V t = isZero (a) ? vl (0, 0, 1) : nrml (vl (a));
         rec<T> ("alignZAxisWithTargetDir.z-row=target", PAIR[cls], distl (rowl (toL (m, 4), 2), t), 4, in);
         if (!degenerate)
         {
@@ -318,6 +432,7 @@ template <class T> static void frames (int k)
     }
     {   // rotationMatrixWithUpDir (from = a, to = b, up = third vector): takes a^ to b^ (b = 0: to +z; a = 0: identity)
         Vec3<T> up ((T) U (-1, 1), (T) U (-1, 1), (T) U (-1, 1));
+        if (mag && (k / NPAIR) % 2 == 0) up *= magnitude<T> (cls == 10); // the up direction at the same scale as the other two
         if (k % 7 == 0) up = b; // up parallel to the target
         if (k % 11 == 0) up = Vec3<T> (0, 0, 0);
         Matrix44<T> m = rotationMatrixWithUpDir (a, b, up);
@@ -328,20 +443,40 @@ template <class T> static void frames (int k)
         { V c0 = crossl (vl (0, 1, 0), vl (a)); L d = lenl (vl (a)); L s = d > 0 ? lenl (c0) / d : 0; if (s > 0 && s < 1e-2) condA = 1 / std::max (s, eps); }
         std::string in2 = in + " up=" + sv (up);
         checkFrame<T> ("rotationMatrixWithUpDir", PAIR[cls], m, condUp * condA, 32, in2);
-        if (a.length2 () != 0)
+        if (!isZero (a))
         {
-            V t = (b.length2 () == 0) ? vl (0, 0, 1) : nrml (vl (b));
+            V t = isZero (b) ? vl (0, 0, 1) : nrml (vl (b));
             rec<T> ("rotationMatrixWithUpDir.from->to", PAIR[cls], distl (vecRow (nrml (vl (a)), toL (m, 4)), t) / (condUp * condA), 16, in2);
+            // the up clause (theorem rotationMatrixWithUpDir_up / alignZAxisWithTargetDir_up): y-row of alignZ (to, up) has a positive
+            // component along up; measured on well-conditioned up (angle to `to` above ~0.6 degrees)
+            L du = lenl (vl (up)) * lenl (vl (b));
+            if (du > 0 && lenl (uc) / du > 1e-2 && finiteM (toL (m, 4)))
+            {
+                Matrix44<T> zf; alignZAxisWithTargetDir (zf, a, Vec3<T> (0, 1, 0));
+                V img = vecRow (rowl (toL (zf, 4), 1), toL (m, 4));   // image of the from-frame's up axis
+                L along = dotl (img, nrml (vl (up)));
+                L want = lenl (uc) / du;                              // = sin(angle(up, to)): the exact component
+                rec<T> ("rotationMatrixWithUpDir.up-component", PAIR[cls], fabsl (along - want), 32, in2);
+            }
         }
         else
             rec<T> ("rotationMatrixWithUpDir.zero-from=identity", PAIR[cls], orthoErr (toL (m, 4), 3) + fabsl (toL (m, 4).a[0][0] - 1), 0, in2);
     }
-    if (a.length2 () != 0 && b.length2 () != 0)
-    {   // rotationMatrix (from = a, to = b) through Quat::setRotation: every non-zero pair, incl. parallel and opposite
+    if (!isZero (a) && !isZero (b))
+    {   // rotationMatrix (from = a, to = b) through Quat::setRotation: every non-zero pair, incl. parallel, opposite and NEARLY opposite
         Matrix44<T> m = rotationMatrix (a, b);
         checkFrame<T> ("rotationMatrix", PAIR[cls], m, 1, 64, in);
-        // nearly opposite directions are ill-conditioned (documented in ImathQuat.h); not generated here
-        rec<T> ("rotationMatrix.from->to", PAIR[cls], distl (vecRow (nrml (vl (a)), toL (m, 4)), nrml (vl (b))), 32, in);
+        // which arm of Quat::setRotation the pair takes (decided as the code does, on the normalised T-valued directions)
+        Vec3<T> f0 = a.normalized (), t0 = b.normalized ();
+        T e8 = 8 * std::numeric_limits<T>::epsilon ();
+        const char* arm = (f0 ^ t0) >= 0 ? "acute" : ((f0 + t0).length2 () > e8 * e8 ? "obtuse-split" : "opposite-fallback");
+        ++hits[std::string ("rotationMatrix-arm:") + arm];
+        // from^ -> to^: the half-way vector h0 = (f0 + t0)^ carries a relative error eps / |f0 + t0|, i.e. the map is conditioned by
+        // 1 / |f0 + t0| (documented in ImathQuat.h: "nearly opposite" is the ill-conditioned case); on the fallback arm the result is the
+        // exact half-turn from^ -> -from^ at distance |f0 + t0| <= 8 eps from to^ (theorem rotationMatrix_carries)
+        L s2 = lenl (V{(L) f0.x + (L) t0.x, (L) f0.y + (L) t0.y, (L) f0.z + (L) t0.z});
+        L condO = cls == 12 ? std::max ((L) 1, 2 / std::max (s2, eps)) : 1;
+        rec<T> ("rotationMatrix.from->to", PAIR[cls], distl (vecRow (nrml (vl (a)), toL (m, 4)), nrml (vl (b))) / condO, 32, in);
     }
     if (!degenerate)
     {   // computeLocalFrame (p, xDir = a, normal = b)
@@ -357,11 +492,12 @@ template <class T> static void frames (int k)
     {   // firstFrame (pi, pj = pi + a, pk = pi + b); collinear classes use lattice points so that collinearity is exact
         bool lat = cls >= 3 && cls <= 5;
         Vec3<T> pi = lat ? Vec3<T> ((T) I (-4, 4), (T) I (-4, 4), (T) I (-4, 4)) : Vec3<T> ((T) U (-2, 2), (T) U (-2, 2), (T) U (-2, 2));
-        if (a.length2 () != 0 && (lat || cls <= 2 || cls == 9 || cls == 7))
+        if (cls == 11) pi = Vec3<T> (0, 0, 0);   // tiny offsets would be absorbed by an O(1) origin
+        if (!isZero (a) && (lat || cls <= 2 || cls == 9 || cls == 7 || cls >= 10))
         {
             Vec3<T> pj = pi + a, pk = pi + b;
             Vec3<T> d = pj - pi, e = pk - pi;   // what the function sees after rounding of pi + a
-            if (d.length2 () != 0)
+            if (!isZero (d))
             {
                 V c = crossl (vl (d), vl (e));
                 L dd = lenl (vl (d)) * lenl (vl (e));
@@ -390,7 +526,7 @@ template <class T> static void frames (int k)
                 L sinT = 0;
                 { V c2 = crossl (vl (d), vl (b)); L d2 = lenl (vl (d)) * lenl (vl (b)); sinT = d2 > 0 ? lenl (c2) / d2 : 0; }
                 rec<T> ("nextFrame.origin", PAIR[cls], distl (rowl (gn, 3), vl (pj)) / std::max ((L) 1, lenl (vl (pj)) + lenl (vl (pi))), 16, in3);
-                if (b.length2 () != 0 && sinT > 0.25 && dotl (vl (d), vl (b)) > -0.9 * lenl (vl (d)) * lenl (vl (b)))
+                if (!isZero (b) && sinT > 0.25 && dotl (vl (d), vl (b)) > -0.9 * lenl (vl (d)) * lenl (vl (b)))
                 {
                     // well-conditioned angle between the tangents: the frame's x-row (the old tangent a^) must turn into b^
                     ++hits["nextFrame:well-conditioned-tangent-angle"];
@@ -413,8 +549,10 @@ int main (int argc, char** argv)
     rng.seed (seed * 2654435761ul + 17);
     runAll<float> (n);
     runAll<double> (n);
+    for (int k = 0; k < n / 4; ++k) { crossType<float, double> (k); crossType<double, float> (k); }
     for (auto& kv : worst) printf ("RESIDUE-WORST %s %.4g\n", kv.first.c_str (), kv.second);
     for (auto& kv : hits) printf ("RESIDUE-HITS %s %ld\n", kv.first.c_str (), kv.second);
-    printf ("RESIDUE evals=%ld lattice_exact=%ld failures=%d\n", evals, lattice, failures);
+    for (auto& kv : classAcc) printf ("RESIDUE-CLASS %s evals=%ld fails=%ld\n", kv.first.c_str (), kv.second.first, kv.second.second);
+    printf ("RESIDUE evals=%ld lattice_exact=%ld failures=%d failures_magnitude_classes=%ld\n", evals, lattice, failures, failuresMagnitude);
     return failures ? 1 : 0;
 }
